@@ -305,6 +305,10 @@ def struct_pack(ex, fmt, vals, st: State, node) -> Optional[Term]:
     order, sizes = lay
     out = None
     for v, n_ in zip(vals, sizes):
+        if is_const(v) and isinstance(cval(v), int) and not isinstance(cval(v), bool) and 0 <= cval(v) < (1 << (8 * n_)):
+            piece = C(cval(v).to_bytes(n_, order))
+            out = piece if out is None else ex.binop("Add", out, piece, st, node)
+            continue
         piece = ex.call_method(v, "to_bytes", [C(n_), C(order)], {}, st, node) if hasattr(ex, "call_method") else method_on_symbolic(ex, v, "to_bytes", [C(n_), C(order)], {}, st, node)
         out = piece if out is None else ex.binop("Add", out, piece, st, node)
     return out
@@ -383,6 +387,9 @@ def method_on_symbolic(ex, recv: Term, name: str, args, kwargs, st: State, node,
     if recv.op == "structobj" and ext_base is None:
         fmt = recv.args[0]
         if name == "unpack" and len(args) == 1:
+            items_ = ex.iter_items(args[0], st)
+            if fmt in (">i", ">I") and items_ is not None and len(items_) == 4 and not ex.sym_bytes:
+                return mk("tuple", (mk("word", fmt, tuple(items_)),))  # (as for struct.unpack(fmt, data) above)
             r_ = struct_unpack(ex, fmt, args[0], st, node)
             if r_ is not None:
                 return r_
@@ -1101,7 +1108,7 @@ def _join(ex, sep: Term, it: Term, st: State, node) -> Term:
 PURE_EXT = {
     "hashlib.sha256", "hashlib.sha1", "hashlib.sha512", "hashlib.sha384", "hashlib.sha224", "hashlib.md5", "binascii.unhexlify", "binascii.hexlify", "binascii.a2b_hex", "binascii.b2a_hex",
     "re.sub", "re.match", "re.compile", "re.search", "re.fullmatch", "struct.unpack", "struct.pack", "copy.copy", "copy.deepcopy", "math.ceil",
-    "math.log", "math.floor", "math.sqrt", "base64.b64decode", "base64.b64encode", "collections.namedtuple", "functools.reduce", "functools.partial", "itertools.chain", "itertools.zip_longest",
+    "math.log", "math.floor", "math.sqrt", "base64.b64decode", "base64.b64encode", "collections.namedtuple", "functools.reduce", "functools.partial", "itertools.chain", "itertools.zip_longest", "itertools.pairwise", "itertools.accumulate",
     "hmac.new", "hmac.compare_digest", "math.gcd", "binascii.Error", "typing.cast",
 }
 
@@ -1164,7 +1171,7 @@ def call_ext(ex, name: str, args, kwargs, st: State, node) -> Term:
             return C(_struct.calcsize(cval(A[0])))
         except (_struct.error, TypeError):
             pass
-    if name == "struct.Struct" and len(A) == 1 and is_const(A[0]) and struct_layout(cval(A[0])) is not None:
+    if name == "struct.Struct" and len(A) == 1 and is_const(A[0]) and (struct_layout(cval(A[0])) is not None or cval(A[0]) in (">i", ">I")):
         return mk("structobj", cval(A[0]))
     if name == "struct.pack" and A and is_const(A[0]):
         r_ = struct_pack(ex, cval(A[0]), list(A[1:]), st, node)
@@ -1193,6 +1200,8 @@ def call_ext(ex, name: str, args, kwargs, st: State, node) -> Term:
             return ex.do_subscript(A[0], A[1], None, st, node)
         if opn in ("methodcaller", "attrgetter", "itemgetter") and A and all(is_const(a) for a in A[:1]):
             return mk("opcaller", opn, tuple(A))
+    if name in ("itertools.pairwise", "pairwise") and len(A) == 1 and not kwargs:
+        return mk("iterview", "pairwise", A[0])
     if name in ("itertools.zip_longest", "zip_longest") and len(A) >= 1 and set(kwargs) <= {"fillvalue"}:
         return mk("iterview", "zip_longest", mk("tuple", tuple(A)), kwargs.get("fillvalue", NONE))
     if name in ("functools.partial", "partial") and A and A[0].op in ("closure", "func", "bound", "class", "partial", "ext", "builtin"):
@@ -1238,6 +1247,14 @@ def call_ext(ex, name: str, args, kwargs, st: State, node) -> Term:
                 return C(re.sub(*vals))
         except NotConst:
             pass
+    if name in ("itertools.accumulate", "accumulate") and len(A) == 2 and not kwargs and A[1].op in ("func", "closure", "bound", "builtin", "partial", "ext", "opcaller"):
+        # accumulate(xs, f) over items known one by one: x0, f(x0, x1), f(f(x0, x1), x2), ...
+        its_ = ex.iter_items(A[0], st)
+        if its_ is not None and len(its_) <= 64:
+            out_ = []
+            for x_ in its_:
+                out_.append(x_ if not out_ else ex.call(A[1], [out_[-1], x_], {}, st, node))
+            return mk("tuple", tuple(out_))
     if name in ("itertools.chain", "chain") and ex.sym_bytes:
         parts = [ex.iter_items(a, st) for a in A]
         if all(p is not None for p in parts):
